@@ -394,7 +394,7 @@ func init() {
 				case "RW.ORACLE": // a yield function used as a value is C12's (silently mistranslated)
 					return !strings.HasPrefix(o.Construct, "a use of ")
 				case "OPT.ORDER":
-					return o.Construct == "file using seq" || o.Construct == "second file using seq" || strings.HasPrefix(o.Construct, "a file is chosen for writing")
+					return o.Construct == "file using seq" || o.Construct == "second file using seq" || strings.HasPrefix(o.Construct, "a file is chosen for writing") || strings.HasPrefix(o.Construct, "a file visited twice")
 				case "RW.ALLFILES":
 					return o.Construct == "file using the API"
 				case "RW.FILEPASSES":
@@ -575,8 +575,8 @@ func init() {
 			c.guard("OPT.ORDER", r.ruleOptOrder)
 			c.keep(func(o Obligation) bool {
 				switch o.Rule {
-				case "OPT.ORDER":
-					return o.Construct == "imports cleaned after the last optimisation"
+				case "OPT.ORDER": // (... and the bytes of a file do not depend on whether its package has a test file)
+					return o.Construct == "imports cleaned after the last optimisation" || strings.HasPrefix(o.Construct, "a file visited twice")
 				case "GEN.FILTER", "GEN.NAME":
 					return false // C16
 				case "RW.TMPL.RANGE", "RW.TMPL.RANGE.TUPLE":
